@@ -1,4 +1,5 @@
 #include "vp.h"
+#include <pthread.h>
 #include <time.h>
 
 struct vp_state vp;
@@ -98,18 +99,24 @@ static void emit(char tag, const char *key, const char *fmt, va_list ap)
 	fflush(OUT);
 }
 
+/* violations may be reported from several threads of a harness: one at a time (emit() uses static buffers) */
+static pthread_mutex_t vp_emit_lock = PTHREAD_MUTEX_INITIALIZER;
 void vp_violation(const char *key, const char *fmt, ...)
 {
 	va_list ap; va_start(ap, fmt);
+	pthread_mutex_lock(&vp_emit_lock);
 	if (vp.nviol < 200) emit('V', key, fmt, ap);
-	va_end(ap);
 	vp.nviol++;
+	pthread_mutex_unlock(&vp_emit_lock);
+	va_end(ap);
 }
 void vp_diag(const char *key, const char *fmt, ...)
 {
 	static int ndiag;
 	va_list ap; va_start(ap, fmt);
+	pthread_mutex_lock(&vp_emit_lock);
 	if (ndiag++ < 50) emit('D', key, fmt, ap);
+	pthread_mutex_unlock(&vp_emit_lock);
 	va_end(ap);
 }
 
